@@ -165,6 +165,7 @@ def gen_case(rng, seeds):
 
 
 MULTISIM_SHARE = [True]
+QUICK = [True]
 _DBS = []
 
 
@@ -182,7 +183,7 @@ def make_history(rng, c, seeds):
             t = F.b(rng.choice(F.VALID_SIMS)) if rng.random() < 0.4 else F.bad_sim(rng)
         extra.append(rng.choice([("run", t), ("run", t), ("acc", t)]))
     c["ops"] = (c["ops"] + extra) if rng.random() < 0.7 else (extra + c["ops"])
-    path, has_end = rng.choice(_DBS)
+    path, has_end = rng.choice(_DBS if QUICK[0] is False else [d_ for d_ in _DBS if os.path.getsize(d_[0]) < 450000])
     c["reload"] = path
     c["reload_str"] = rng.random() < 0.4
     c["probe"] = GENERIC_PROBE
@@ -230,6 +231,18 @@ def corpus_cases():
     add("extreme-integer-stagnant", "TRANSPORT\n-stagnant 2147483647\n")
     C.append(mk_case("corpus", "long-species-equation-db", [("loaddb", b"db_long.dat")], sw=[("errstr", 1)],
                      files={"db_long.dat": b"SOLUTION_SPECIES\nMn+2 + 2 NO3- = Mn(NO3)2" + b" a" * 200 + b"\n"}))
+    add("spread-unnumbered-row-then-reload", "SOLUTION_SPREAD\nNumber\tpH\nx\t7\nEND\n")                     # listed key asan-heap-use-after-free:clear-prep
+    add("immediate-for-in-user-punch", "SOLUTION\nSELECTED_OUTPUT\nUSER_PUNCH\nFOR i = 1 TO 3\n10 PUNCH 1\nEND\n")   # listed key …clearloops-PBasic::cmdnew
+    add("surface-raw-bad-enum", "SURFACE_RAW\n-sites_units -2147483648\n")
+    sit, iso, core = (str(F.DBDIR / n) for n in ("sit.dat", "iso.dat", "core10.dat"))
+    C.append(mk_case("corpus", "unread-input-then-reload-no-END-db", [("run", b"SOLUTION 1\n -bogus\nEND\nSOLUTION 2\n Na 1\nEND\n")], sw=[("errstr", 1)],
+                     reload=sit, probe=GENERIC_PROBE))
+    C.append(mk_case("corpus", "error-inside-include-then-reload-string", [("run", b"SOLUTION 1\nINCLUDE$ inc_c.pqi\nEND\nSOLUTION 2\nEND\n")], sw=[("errstr", 1)],
+                     files={"inc_c.pqi": b"EQUILIBRIUM_PHASES 1\n Nophase 0 1\nEND\nSOLUTION 3\n Cl 1\nEND\n"}, reload=iso, reload_str=True, probe=GENERIC_PROBE))
+    C.append(mk_case("corpus", "missing-include-middle-then-reload", [("run", b"SOLUTION 1\n Na 1\nINCLUDE$ nosuch_c08.inc\nEND\nSOLUTION 2\nEND\n"),
+                                                                     ("run", b"USE solution 9\nEND\nSOLUTION 4\nEND\n")], sw=[("errstr", 1)],
+                     reload=core, probe=GENERIC_PROBE))
+    C.append(mk_case("corpus", "first-load-without-master-species", [("loaddbstr", b"SOLUTION_SPECIES\nH2O = H2O\n log_k 0\n")], sw=[("errstr", 1)]))
     C.append(mk_case("corpus", "kinetics-constant-rate", [("run", HANG_INPUT)], sw=[("errstr", 1)], timeout=5))
     C.append(mk_case("corpus", "load-missing-after-warning", [("loaddb", b"/nonexistent_dir_c08/x.dat")], sw=[("errstr", 1)], pre=[("run", WARN_PRE)]))
     C.append(mk_case("corpus", "load-missing-fresh", [("loaddb", b"/nonexistent_dir_c08/x.dat")], sw=[("errstr", 1)]))
@@ -850,9 +863,10 @@ def run(ctx):
     ok = ctx.prove(["PhreeqcVerif.Properties.C08"])
     exe, plain = build(ctx)
     timeout = ctx.n(20, 30)
-    n = ctx.n(420, 10000)
+    n = ctx.n(360, 10000)
     if not ok:
         n = max(n, 3000)
+    QUICK[0] = ctx.tier != "thorough"
     seeds = F.seeds()
     cases = corpus_cases() + [gen_case(ctx.rng, seeds) for _ in range(n)]
     ctx.log(f"{len(cases)} cases ({len(seeds)} seed inputs), ASan+UBSan harness {exe.name}")
